@@ -13,8 +13,8 @@ from parglare.exceptions import SRConflicts, RRConflicts
 RULE = ("case = (productive grammar, lexicon L0|L1, layout fillers); all 8 combinations of prefer_shifts x "
         "prefer_shifts_over_empty x {LALR,SLR} are tried, a combination is in domain when Parser() constructs; every "
         "token string up to 4-5 tokens (+ junk) is parsed by each constructed parser; non-trivial = constructed "
-        "parser together with an accepted input of >= 2 tokens or a rejected input; distinct by (grammar, options, "
-        "input); deterministic-class parsers (no strategy, every cell a single action) are counted separately")
+        "parser together with an accepted input of >= 2 tokens (rejected inputs are counted in the labels only); "
+        "distinct by (grammar, options, input); deterministic-class parsers (no strategy, every cell a single action) are counted separately")
 ASSUMPTIONS = [
     "reference recogniser/enumerator (pv/ref_chart.py) is correct",
     "exactness is asserted only for the non-overlapping lexicon L0 (longest-match tokenisation may legitimately reject sentences of an overlapping lexicon)",
@@ -98,7 +98,6 @@ def run_case(case, ctx):
                                            "verdict": "accepted, tree is a derivation", "deterministic": det})
             else:
                 ctx.label("rejected")
-                ctx.nontrivial([case["g"], ps, pse, tb, text])
             if det:
                 if member and out.kind != "ok":
                     ctx.fail("deterministic-lr-rejects-sentence", **info)
@@ -145,6 +144,18 @@ def strat_l0_big(tier):
     return _case(gen.cfgs(max_nts=4, max_alts=2, max_rhs=4, max_terms=3), "L0")
 
 
+def strat_chain(tier):
+    return _case(gen.nullable_chain_cfgs(), "L0")
+
+
+def strat_refused(tier):
+    @st.composite
+    def c(draw):
+        g = draw(gen.refused_merge_cfgs())
+        return {"g": g, "lex": "L0", "fill": draw(FILL), "max_len": 3}
+    return c()
+
+
 def strat_l1(tier):
     return _case(gen.cfgs(max_nts=3, max_alts=3, max_rhs=3, min_terms=2, max_terms=4,
                           terms_pool=gen.L1_TERMS), "L1")
@@ -174,6 +185,8 @@ SUBCHECKS = [
     SubCheck("tiny-exhaustive", run_case, enumerate=enum_tiny),
     SubCheck("random-L0", run_case, strategy=strat_l0, examples={"quick": 2400, "thorough": 24000}),
     SubCheck("random-L0-larger", run_case, strategy=strat_l0_big, examples={"quick": 640, "thorough": 6400}),
+    SubCheck("nullable-chain-family", run_case, strategy=strat_chain, examples={"quick": 1280, "thorough": 12800}),
+    SubCheck("refused-merge-family", run_case, strategy=strat_refused, examples={"quick": 320, "thorough": 3200}),
     SubCheck("random-L1-overlapping", run_case, strategy=strat_l1, examples={"quick": 640, "thorough": 6400}),
 ]
 
